@@ -130,6 +130,27 @@ class LibMethod:
         return '<method %s of %r>' % (self.name, self.recv)
 
 
+class FuncV:
+    """A callable built by the standard library from other values:
+    functools.partial(f, *a, **k), operator.attrgetter / itemgetter /
+    methodcaller objects, operator functions."""
+    __slots__ = ('kind', 'data')
+
+    def __init__(self, kind, data):
+        self.kind = kind
+        self.data = data
+
+    def __eq__(self, other):
+        return isinstance(other, FuncV) and other.kind == self.kind and \
+            repr(other.data) == repr(self.data)
+
+    def __hash__(self):
+        return hash(('funcv', self.kind))
+
+    def __repr__(self):
+        return '<%s %r>' % (self.kind, self.data)
+
+
 class Closure:
     __slots__ = ('func', 'env')
 
@@ -516,7 +537,88 @@ class Interp:
         if isinstance(v, Ref):
             self.static_names.setdefault(v.id, mi.name[len('pamqp.'):] + '.'
                                          + name)
+            if v.id in self.static_store and isinstance(
+                    self.static_store[v.id], (ListObj, DictObj)):
+                self._apply_module_initialisers(mi, name, bl[-1].node, v)
         return v
+
+    def _apply_module_initialisers(self, mi, name, bind_node, ref):
+        """Import-time statements that fill a module-level container after
+        its binding: NAME[k] = v, NAME.update(...), NAME.append(...) at
+        module level, and decorators of module-level definitions whose
+        function stores into NAME.  Executed once, in source order, on the
+        shared (static) store; they are initialisation, not call effects."""
+        start = getattr(bind_node, 'lineno', 0)
+
+        def mentions(node):
+            return any(isinstance(n, ast.Name) and n.id == name
+                       for n in ast.walk(node))
+
+        todo = []
+        for st in mi.tree.body:
+            if getattr(st, 'lineno', 0) <= start:
+                continue
+            if isinstance(st, (ast.ClassDef, ast.FunctionDef)):
+                for d in st.decorator_list:
+                    dn = d.func if isinstance(d, ast.Call) else d
+                    try:
+                        tgt = self.prog.resolve_static(mi, dn, mi)
+                    except Exception:
+                        tgt = None
+                    if isinstance(tgt, FuncInfo) and not isinstance(
+                            d, ast.Call) and mentions(tgt.node):
+                        todo.append(('deco', tgt, st))
+            elif isinstance(st, (ast.Assign, ast.AugAssign, ast.Expr,
+                                 ast.Delete)) and mentions(st):
+                tg = st.targets if isinstance(st, (ast.Assign, ast.Delete)) \
+                    else [getattr(st, 'target', None)]
+                if isinstance(st, ast.Assign) and any(
+                        isinstance(t_, ast.Name) and t_.id == name
+                        for t_ in tg):
+                    break  # rebound: a different object from here on
+                writes = any(isinstance(t_, ast.Subscript) and
+                             isinstance(t_.value, ast.Name) and
+                             t_.value.id == name for t_ in tg if t_) or (
+                    isinstance(st, ast.Expr) and
+                    isinstance(st.value, ast.Call) and
+                    isinstance(st.value.func, ast.Attribute) and
+                    isinstance(st.value.func.value, ast.Name) and
+                    st.value.func.value.id == name)
+                if writes:
+                    todo.append(('stmt', st, None))
+        if not todo:
+            return
+        saved = (self.cur_module, self.cur_func, self.stack, self.pending)
+        e0, c0, n0 = len(self.effects), len(self.calls), len(self.notes)
+        self.cur_module, self.cur_func = mi, None
+        self.stack = [('<module %s>' % mi.name, None)]
+        self.pending = []
+        try:
+            for kind, a, b in todo:
+                st_ = State({}, self.static_store, Knowledge())
+                fr = Frame(self, None, mi, None, st_.env)
+                if kind == 'stmt':
+                    outs = self.exec_block([a], st_, fr)
+                else:
+                    scope = self.prog.classes.get(
+                        mi.name + '.' + b.name) if isinstance(
+                            b, ast.ClassDef) else self.prog.functions.get(
+                                mi.name + '.' + b.name)
+                    if scope is None:
+                        raise Unsupported('decorated definition %s' % b.name)
+                    outs = self.call_outcomes(a, [scope], {}, st_, b)
+                if any(o.kind == 'raise' for o in outs) or self.pending:
+                    raise Unsupported(
+                        'module-level initialisation of %s.%s may raise' %
+                        (mi.name, name))
+        finally:
+            self.cur_module, self.cur_func, self.stack, self.pending = saved
+            del self.effects[e0:]
+            del self.calls[c0:]
+            del self.notes[n0:]
+        for i, o in list(self.static_store.items()):
+            if not o.shared:
+                o.shared = True
 
     def binding_value(self, bl, scope, mi):
         b = bl[-1]
@@ -534,6 +636,12 @@ class Interp:
             whole = self.eval_static(value[1], scope, mi)
             tgt = b.node.targets[0]
             names = [e.id for e in tgt.elts if isinstance(e, ast.Name)]
+            if isinstance(whole, Ref) and whole.id in self.static_store:
+                ob = self.static_store[whole.id]
+                if isinstance(ob, ListObj) and not ob.more and not any(
+                        isinstance(x, Sym) and x.op == 'opt'
+                        for x in ob.items):
+                    whole = tuple(ob.items)
             if isinstance(whole, tuple) and len(whole) == len(names):
                 return whole[names.index(b.name)]
             raise Unsupported('tuple unpacking at scope level: ' + b.name)
@@ -728,7 +836,10 @@ class Interp:
                 outs = self.flush_pending()
                 outs.append(Outcome('return', st, value=v))
             else:
-                outs = self.exec_block(fi.node.body, st, frame)
+                body = _desugared_body(fi.node)
+                if body is not fi.node.body:
+                    frame.locals |= _assigned_names(body)
+                outs = self.exec_block(body, st, frame)
             res = []
             for o in outs:
                 if o.kind == 'normal':
@@ -1135,12 +1246,17 @@ class Interp:
     def exception_type_of(self, node, state, frame):
         if isinstance(node, ast.Call):
             callee = self.eval(node.func, state, frame)
-            for a in node.args:
-                self.eval(a, state, frame)
-            for k in node.keywords:
-                self.eval(k.value, state, frame)
             if is_exception_type(callee):
+                for a in node.args:
+                    self.eval(a, state, frame)
+                for k in node.keywords:
+                    self.eval(k.value, state, frame)
                 return callee
+            # a factory: evaluate the call, the result must be an exception
+            # object
+            v = self.eval(node, state, frame)
+            if isinstance(v, Sym) and v.op == 'excinst':
+                return v.args[0]
             raise Unsupported('raise of a non-class call result at ' +
                               self.site(node))
         v = self.eval(node, state, frame)
@@ -1371,6 +1487,21 @@ class Interp:
         cache[key] = names
         return names
 
+    def _namedtuple_fields(self, ci):
+        """(field names, {name: default expr}) of a typing.NamedTuple
+        class, else None."""
+        if not any(isinstance(b, tuple) and len(b) > 1 and
+                   b[1] == 'typing.NamedTuple' for b in ci.bases):
+            return None
+        names, defaults = [], {}
+        for st in ci.node.body:
+            if isinstance(st, ast.AnnAssign) and isinstance(st.target,
+                                                            ast.Name):
+                names.append(st.target.id)
+                if st.value is not None:
+                    defaults[st.target.id] = st.value
+        return names, defaults
+
     def _note_static_loop(self, st, n):
         k = (self.cur_func.qualname if self.cur_func is not None else '?',
              st.lineno)
@@ -1502,10 +1633,17 @@ class Interp:
         store_before = dict(probe.store)
         pinfo = self._loop_body_once(st, probe, frame, iterable, loop_id)
         mutated = set()
+        changed_attrs = {}
         for o_ in pinfo['all']:
             for i, o in o_.state.store.items():
                 if i in store_before and store_before[i] is not o:
                     mutated.add(i)
+                    ob0 = store_before[i]
+                    if isinstance(o, InstObj) and isinstance(ob0, InstObj):
+                        for a_ in set(o.attrs) | set(ob0.attrs):
+                            if not same_value(o.attrs.get(a_, ABSENT),
+                                              ob0.attrs.get(a_, ABSENT)):
+                                changed_attrs.setdefault(i, set()).add(a_)
         mutated = sorted(mutated)
         self.pending = pend0
         del self.effects[eff0:]
@@ -1537,9 +1675,24 @@ class Interp:
             elif isinstance(o, DictObj):
                 hstate.store[i] = DictObj(o.items, True, o.shared, o.origin)
             elif isinstance(o, InstObj):
-                hstate.store[i] = InstObj(
-                    o.cls, {a: Sym('loopattr', loop_id, i, a)
-                            for a in o.attrs}, o.shared, o.origin)
+                # only the attributes the body assigns are unknown at the
+                # loop head; an integer one keeps its type (a cursor held in
+                # an object is still a cursor)
+                na = dict(o.attrs)
+                for a in changed_attrs.get(i, set(o.attrs)):
+                    p_ = o.attrs.get(a, ABSENT)
+                    v_ = Sym('loopattr', loop_id, i, a)
+                    t_ = T.typeof(p_) if p_ is not ABSENT else None
+                    if t_ is not None and t_ <= {'int', 'bool'}:
+                        iv_ = None
+                        if pinfo.get('attr_nonneg', {}).get((i, a)):
+                            lo_ = T.interval(p_, state.kn)[0]
+                            if lo_ is not None:
+                                iv_ = (lo_, None)
+                        v_ = Sym('typed', v_, ('int',), iv_)
+                    na[a] = v_
+                hstate.store[i] = InstObj(o.cls, na, o.shared, o.origin,
+                                          o.open)
         entry = hstate.fork()
         self.loop_stack.append((loop_id, self.cur_func, len(self.stack)))
         try:
@@ -1611,6 +1764,14 @@ class Interp:
                 'returns': [o for o in res if o.kind == 'return'],
                 'entry': entry,
                 'pre': dict(pre or {}),
+                'start_attrs': {
+                    (i_, a_): v_ for i_, ob_ in start.store.items()
+                    if isinstance(ob_, InstObj)
+                    for a_, v_ in ob_.attrs.items()
+                    if isinstance(v_, Sym) and v_.op == 'typed' and
+                    isinstance(v_.args[0], Sym) and
+                    v_.args[0].op == 'loopattr' and
+                    v_.args[0].args[0] == loop_id},
                 'enclosing': list(self.loop_stack[:-1]),
                 'depth': len(self.stack),
             })
@@ -1625,6 +1786,30 @@ class Interp:
                     if lo is None or lo < 0:
                         okk = False
                 info['nonneg_incs'][k] = okk
+        # the same for integer attributes of objects (probe pass: the
+        # attribute still holds its pre-loop value at the loop head)
+        attr_nonneg = {}
+        for i_, ob0 in start.store.items():
+            if not isinstance(ob0, InstObj):
+                continue
+            for a_, v0 in ob0.attrs.items():
+                t0 = T.typeof(v0) if v0 is not ABSENT else None
+                if t0 is None or not t0 <= {'int', 'bool'}:
+                    continue
+                okk = True
+                for o in conts:
+                    ob1 = o.state.store.get(i_)
+                    v1 = ob1.attrs.get(a_) if isinstance(ob1, InstObj) \
+                        else None
+                    if v1 is None or v1 is ABSENT:
+                        okk = False
+                        continue
+                    dlt = T.sub(v1, v0)
+                    lo = T.interval(dlt, o.state.kn)[0]
+                    if lo is None or lo < 0:
+                        okk = False
+                attr_nonneg[(i_, a_)] = okk
+        info['attr_nonneg'] = attr_nonneg
         return info
 
     def st_Break(self, st, state, frame):
@@ -1644,27 +1829,50 @@ class Interp:
         def subj():
             return ast.Name(id=tmp, ctx=ast.Load())
 
-        def test_of(pat, binds):
+        def test_of(pat, binds, sub=None):
+            sub = subj() if sub is None else sub
             if isinstance(pat, ast.MatchValue):
-                return ast.Compare(left=subj(), ops=[ast.Eq()],
+                return ast.Compare(left=sub, ops=[ast.Eq()],
                                    comparators=[pat.value])
             if isinstance(pat, ast.MatchSingleton):
-                return ast.Compare(left=subj(), ops=[ast.Is()],
+                return ast.Compare(left=sub, ops=[ast.Is()],
                                    comparators=[ast.Constant(pat.value)])
             if isinstance(pat, ast.MatchOr):
-                return ast.BoolOp(op=ast.Or(), values=[
-                    test_of(p_, binds) for p_ in pat.patterns])
+                subs = []
+                for p_ in pat.patterns:
+                    b2 = []
+                    subs.append(test_of(p_, b2, sub))
+                    if b2:
+                        raise Unsupported('capture inside an or-pattern at '
+                                          + self.site(st))
+                return ast.BoolOp(op=ast.Or(), values=subs)
             if isinstance(pat, ast.MatchAs):
                 inner = ast.Constant(True) if pat.pattern is None else \
-                    test_of(pat.pattern, binds)
+                    test_of(pat.pattern, binds, sub)
                 if pat.name is not None:
-                    binds.append(pat.name)
+                    binds.append((pat.name, sub))
                 return inner
             if isinstance(pat, ast.MatchClass) and not pat.patterns and \
                     not pat.kwd_patterns:
                 return ast.Call(func=ast.Name(id='isinstance',
                                               ctx=ast.Load()),
-                                args=[subj(), pat.cls], keywords=[])
+                                args=[sub, pat.cls], keywords=[])
+            if isinstance(pat, ast.MatchSequence) and not any(
+                    isinstance(p_, ast.MatchStar) for p_ in pat.patterns):
+                # the subject must be a tuple / list of exactly that length
+                sv = state.env.get(tmp) if sub is not None and \
+                    isinstance(sub, ast.Name) and sub.id == tmp else None
+                if not isinstance(sv, tuple):
+                    raise Unsupported('sequence pattern on a subject that '
+                                      'is not a literal tuple at ' +
+                                      self.site(st))
+                if len(sv) != len(pat.patterns):
+                    return ast.Constant(False)
+                tests = [test_of(p_, binds, ast.Subscript(
+                    value=sub, slice=ast.Constant(i_), ctx=ast.Load()))
+                    for i_, p_ in enumerate(pat.patterns)]
+                return ast.BoolOp(op=ast.And(), values=tests) if tests \
+                    else ast.Constant(True)
             raise Unsupported('match pattern %s at %s' % (
                 type(pat).__name__, self.site(st)))
 
@@ -1672,16 +1880,21 @@ class Interp:
         for case in reversed(st.cases):
             binds = []
             test = test_of(case.pattern, binds)
-            body = [ast.Assign(targets=[ast.Name(id=b, ctx=ast.Store())],
-                               value=subj()) for b in binds] + \
-                list(case.body)
-            if case.guard is not None:
-                if binds:
-                    raise Unsupported('guarded capture pattern at ' +
-                                      self.site(st))
-                test = ast.BoolOp(op=ast.And(), values=[test, case.guard])
-            node = ast.If(test=test, body=body,
-                          orelse=[chain] if chain is not None else [])
+            assigns = [ast.Assign(targets=[ast.Name(id=b, ctx=ast.Store())],
+                                  value=src) for b, src in binds]
+            rest = [chain] if chain is not None else []
+            if case.guard is not None and binds:
+                # the captures are bound before the guard is evaluated (and
+                # stay bound when it fails)
+                inner = ast.If(test=case.guard, body=list(case.body),
+                               orelse=rest)
+                node = ast.If(test=test, body=assigns + [inner], orelse=rest)
+            else:
+                if case.guard is not None:
+                    test = ast.BoolOp(op=ast.And(),
+                                      values=[test, case.guard])
+                node = ast.If(test=test, body=assigns + list(case.body),
+                              orelse=rest)
             ast.copy_location(node, case.pattern)
             chain = node
         if chain is None:
@@ -1695,6 +1908,26 @@ class Interp:
     def st_With(self, st, state, frame):
         if len(st.items) == 1 and isinstance(st.items[0].context_expr,
                                              ast.Call):
+            call = st.items[0].context_expr
+            try:
+                tgt = self.prog.resolve_static(frame.module, call.func,
+                                               frame.module)
+            except Exception:
+                tgt = None
+            if isinstance(tgt, tuple) and tgt and tgt[0] == 'ext' and \
+                    tgt[1] == 'contextlib.suppress' and \
+                    st.items[0].optional_vars is None and \
+                    not call.keywords:
+                # with suppress(E1, E2): body  ==  try: body
+                #                                  except (E1, E2): pass
+                handler = ast.ExceptHandler(
+                    type=ast.Tuple(elts=list(call.args), ctx=ast.Load()),
+                    name=None, body=[ast.Pass()])
+                t_ = ast.Try(body=list(st.body), handlers=[handler],
+                             orelse=[], finalbody=[])
+                for n_ in (handler, handler.type, handler.body[0], t_):
+                    ast.copy_location(n_, st)
+                return self.st_Try(t_, state, frame)
             r = self._with_contextmanager(st, state, frame)
             if r is not None:
                 return r
@@ -2008,8 +2241,27 @@ class Interp:
         return tuple(out)
 
     def ex_List(self, node, state, frame):
-        items = list(self.ex_Tuple(node, state, frame))
-        return self.alloc(state, ListObj(items, origin=self.site(node)))
+        items = []
+        more = False
+        for e in node.elts:
+            if more:
+                raise Unsupported('elements after an open-ended starred '
+                                  'list at ' + self.site(e))
+            if isinstance(e, ast.Starred):
+                v = self.eval(e.value, state, frame)
+                if isinstance(v, Ref) and self.obj(state, v).kind == 'list':
+                    o = self.obj(state, v)
+                    items.extend(o.items)
+                    more = more or o.more
+                    continue
+                seq = self.models.static_sequence(self, v, state)
+                if seq is None:
+                    raise Unsupported('starred element at ' + self.site(e))
+                items.extend(seq)
+            else:
+                items.append(self.eval(e, state, frame))
+        return self.alloc(state, ListObj(items, more=more,
+                                         origin=self.site(node)))
 
     def ex_Set(self, node, state, frame):
         items = self.ex_Tuple(node, state, frame)
@@ -2021,7 +2273,19 @@ class Interp:
         items = []
         for k, v in zip(node.keys, node.values):
             if k is None:
-                raise Unsupported('dict unpacking at ' + self.site(node))
+                dv = self.eval(v, state, frame)
+                ob = self.obj(state, dv) if isinstance(dv, Ref) else None
+                if not isinstance(ob, DictObj) or ob.more:
+                    raise Unsupported('dict unpacking of a run-time '
+                                      'mapping at ' + self.site(node))
+                for kk, vv in ob.items:
+                    hit = [i for i, (a, _b) in enumerate(items)
+                           if same_value(a, kk)]
+                    if hit:
+                        items[hit[0]] = (items[hit[0]][0], vv)
+                    else:
+                        items.append((kk, vv))
+                continue
             items.append((self.eval(k, state, frame),
                           self.eval(v, state, frame)))
         return self.alloc(state, DictObj(items, origin=self.site(node)))
@@ -2151,6 +2415,19 @@ class Interp:
             left = right
         return result
 
+    # helpers for library models that act like operators
+    def compare_values(self, opname, a, b, state, node):
+        op = {'eq': ast.Eq, 'ne': ast.NotEq, 'lt': ast.Lt, 'le': ast.LtE,
+              'gt': ast.Gt, 'ge': ast.GtE, 'is': ast.Is,
+              'isnot': ast.IsNot}[opname]()
+        return self.models.compare(self, op, a, b, state, node)
+
+    def subscript_value(self, base, key, state, node):
+        return self.models.get_item(self, base, key, state, node)
+
+    def getattr_value(self, base, name, state, node):
+        return self.get_attr(base, name, state, node)
+
     def ex_Attribute(self, node, state, frame):
         base = self.eval(node.value, state, frame)
         return self.get_attr(base, node.attr, state, node)
@@ -2192,6 +2469,13 @@ class Interp:
             if isinstance(o, InstObj):
                 if name in o.attrs:
                     v = o.attrs[name]
+                    if isinstance(v, (Sym, tuple)) and state.kn.known and \
+                            v is not ABSENT:
+                        # like a local: read under what the path knows
+                        try:
+                            v = T.simplify(v, state.kn)
+                        except Exception:
+                            pass
                     if isinstance(v, Sym) and v.op == 'cond' and \
                             (v.args[1] is ABSENT or v.args[2] is ABSENT):
                         self.raise_pending(
@@ -2242,6 +2526,15 @@ class Interp:
                         return Bound(v, o.cls)
                     if v.kind == 'staticmethod':
                         return v
+                    decos = getattr(v.node, 'decorator_list', [])
+                    if len(decos) == 1 and self.models.decorator_path(
+                            self.prog, v.module, decos[0]) in (
+                                None, 'builtins.property') and \
+                            isinstance(decos[0], ast.Name) and \
+                            decos[0].id == 'property':
+                        # a read-only property: the getter runs on access
+                        return self.call_function(v, [base], {}, state,
+                                                  node)
                     self.note('decorated method %s analysed through its '
                               'undecorated body' % v.short)
                     return Bound(v, base)
@@ -2430,6 +2723,9 @@ class Interp:
                                       kwargs, state, node)
         if isinstance(callee, ClassInfo):
             return self.instantiate(callee, args, kwargs, state, node)
+        if isinstance(callee, FuncV):
+            return self.models.call_funcv(self, callee, args, kwargs, state,
+                                          node)
         if isinstance(callee, Sym) and callee.op == 'cond':
             # call through a conditional callee: both, joined
             g = callee.args[0]
@@ -2451,6 +2747,30 @@ class Interp:
                for c in self.prog.mro(ci)):
             # exception instance: no constructor to run
             return Sym('excinst', ci, tuple(_as_term(a) for a in args))
+        nt = self._namedtuple_fields(ci)
+        if nt is not None:
+            names, defaults = nt
+            attrs = {}
+            if len(args) > len(names) or any(k not in names for k in kwargs):
+                self.raise_pending(state, Ext('builtins.TypeError'), node,
+                                   '%s() takes %d fields' % (ci.short,
+                                                             len(names)),
+                                   cond=True)
+                raise _NoReturn()
+            for i, nm in enumerate(names):
+                if i < len(args):
+                    attrs[nm] = args[i]
+                elif nm in kwargs:
+                    attrs[nm] = kwargs[nm]
+                elif nm in defaults:
+                    attrs[nm] = self.eval_static(defaults[nm], ci, ci.module)
+                else:
+                    self.raise_pending(state, Ext('builtins.TypeError'),
+                                       node, '%s() missing field %s' %
+                                       (ci.short, nm), cond=True)
+                    raise _NoReturn()
+            return self.alloc(state, InstObj(ci, attrs,
+                                             origin=self.site(node)))
         ref = self.alloc(state, InstObj(ci, {}, origin=self.site(node)))
         init = self.prog.find_method(ci, '__init__')
         if init is not None:
@@ -2488,6 +2808,111 @@ def _walk_own_nodes(fnode):
                               ast.Lambda, ast.ClassDef)):
                 continue
             todo.append(c)
+
+
+_DESUGARED = {}
+
+
+def _desugared_body(fnode):
+    """Bytes accumulators written as  v = b'...'; ...; v += e  (every other
+    store to v an augmented addition) are rewritten into the list form the
+    loop summaries understand:  v_parts = [b'...']; v_parts.append(e); a
+    read of v becomes b''.join(v_parts).  Same bytes, same TypeError for a
+    non-bytes operand."""
+    key = id(fnode)
+    if key in _DESUGARED:
+        return _DESUGARED[key]
+    body = fnode.body
+    params = set()
+    a = fnode.args
+    for p_ in a.posonlyargs + a.args + a.kwonlyargs:
+        params.add(p_.arg)
+    inits, augs, other = {}, {}, set()
+    declared = set()
+    own = list(_walk_own_nodes(fnode))
+    in_loop_inits = set()
+    for n in own:
+        if isinstance(n, (ast.Global, ast.Nonlocal)):
+            declared.update(n.names)
+    for st in body:
+        if isinstance(st, ast.Assign) and len(st.targets) == 1 and \
+                isinstance(st.targets[0], ast.Name) and \
+                isinstance(st.value, ast.Constant) and \
+                isinstance(st.value.value, bytes):
+            nm = st.targets[0].id
+            inits[nm] = inits.get(nm, 0) + 1
+    for n in own:
+        if isinstance(n, ast.AugAssign) and isinstance(n.target, ast.Name):
+            if isinstance(n.op, ast.Add):
+                augs[n.target.id] = augs.get(n.target.id, 0) + 1
+            else:
+                other.add(n.target.id)
+        elif isinstance(n, ast.Name) and isinstance(n.ctx, (ast.Store,
+                                                            ast.Del)):
+            pass
+    stores = {}
+    for n in own:
+        if isinstance(n, ast.Name) and isinstance(n.ctx, (ast.Store,
+                                                          ast.Del)):
+            stores[n.id] = stores.get(n.id, 0) + 1
+    names = {nm for nm in inits
+             if inits[nm] == 1 and augs.get(nm) and nm not in other and
+             nm not in params and nm not in declared and
+             stores.get(nm, 0) == 1 + augs[nm]}
+    del in_loop_inits
+    if not names:
+        _DESUGARED[key] = body
+        return body
+    import copy
+
+    class Tr(ast.NodeTransformer):
+        def visit_FunctionDef(self, node):
+            return node
+
+        visit_AsyncFunctionDef = visit_Lambda = visit_ClassDef = \
+            visit_FunctionDef
+
+        def visit_Assign(self, node):
+            if len(node.targets) == 1 and isinstance(
+                    node.targets[0], ast.Name) and \
+                    node.targets[0].id in names and \
+                    isinstance(node.value, ast.Constant):
+                new = ast.Assign(
+                    targets=[ast.Name(id='$parts_' + node.targets[0].id,
+                                      ctx=ast.Store())],
+                    value=ast.List(elts=[node.value] if node.value.value
+                                   else [], ctx=ast.Load()))
+                return ast.copy_location(new, node)
+            return self.generic_visit(node)
+
+        def visit_AugAssign(self, node):
+            if isinstance(node.target, ast.Name) and \
+                    node.target.id in names:
+                val = self.visit(node.value)
+                call = ast.Expr(value=ast.Call(
+                    func=ast.Attribute(
+                        value=ast.Name(id='$parts_' + node.target.id,
+                                       ctx=ast.Load()),
+                        attr='append', ctx=ast.Load()),
+                    args=[val], keywords=[]))
+                return ast.copy_location(call, node)
+            return self.generic_visit(node)
+
+        def visit_Name(self, node):
+            if node.id in names and isinstance(node.ctx, ast.Load):
+                new = ast.Call(
+                    func=ast.Attribute(value=ast.Constant(b''), attr='join',
+                                       ctx=ast.Load()),
+                    args=[ast.Name(id='$parts_' + node.id, ctx=ast.Load())],
+                    keywords=[])
+                return ast.copy_location(new, node)
+            return node
+
+    new_body = [Tr().visit(copy.deepcopy(st)) for st in body]
+    for st in new_body:
+        ast.fix_missing_locations(st)
+    _DESUGARED[key] = new_body
+    return new_body
 
 
 def _genexp_stable(node, frame):
